@@ -10,17 +10,19 @@ export CARGO_TARGET_DIR=/tmp/confirm/target CARGO_NET_OFFLINE=true
 mkdir -p /tmp/confirm
 if [ ! -d "$wt" ]; then git -C /repo worktree add --detach "$wt" HEAD -q || exit 2; fi
 git -C "$wt" checkout -q --detach "$(git -C /repo rev-parse HEAD)"; git -C "$wt" checkout -q -- .; git -C "$wt" clean -fdq
-res="$d/confirm.txt"; : > "$res"
+res="$d/confirm.txt"; : > "$res"; echo "repo_head: $(git -C /repo rev-parse --short HEAD)" >> "$res"
 cd "$wt"
 if ! git apply "$d/patch.diff"; then echo "apply: FAIL" >> "$res"; exit 1; fi
 echo "apply: ok" >> "$res"
 out="$(cargo nextest run --workspace --no-fail-fast --offline --test-threads 8 2>&1 | grep -E 'Summary|error(\[|:)' | tail -3)"
 echo "suite_with_change: $out" >> "$res"
+out="$(cargo nextest run --workspace --no-fail-fast --offline --test-threads 8 --all-features 2>&1 | grep -E 'Summary|error(\[|:)' | tail -3)"
+echo "suite_all_features_with_change: $out" >> "$res"
 cp "$d/demo.rs" tests/seed_demo.rs
-out="$(cargo nextest run --offline --test seed_demo --no-fail-fast 2>&1 | grep -E 'Summary|error(\[|:)' | tail -3)"
+out="$(cargo nextest run --offline --all-features --test seed_demo --no-fail-fast 2>&1 | grep -E 'Summary|error(\[|:)' | tail -3)"
 echo "demo_with_change: $out" >> "$res"
 git apply -R "$d/patch.diff"
-out="$(cargo nextest run --offline --test seed_demo --no-fail-fast 2>&1 | grep -E 'Summary|error(\[|:)' | tail -3)"
+out="$(cargo nextest run --offline --all-features --test seed_demo --no-fail-fast 2>&1 | grep -E 'Summary|error(\[|:)' | tail -3)"
 echo "demo_without_change: $out" >> "$res"
 git checkout -q -- .; git clean -fdq
 cat "$res"
